@@ -85,7 +85,7 @@ def normalise_ext(src, dst):
                  "bad": e.get("bad", "") or "", "out": e.get("out", "") or "", "op": e.get("op", "") or "",
                  "parked": [p for p in parked if not p.startswith("impl:")], "held": held,
                  "valid": bool(e.get("valid", False)), "ok": bool(e.get("ok", True)), "initial": bool(e.get("initial", False)),
-                 "what": (e.get("what", "") or "")[:300]}
+                 "what": re.sub(r"[^A-Za-z0-9 _.:,/()-]+", " ", (e.get("what", "") or ""))[:200]}
             g.write(json.dumps(o) + "\n")
             n += 1
     return n
@@ -107,6 +107,11 @@ def run_monitor(ctx, ext_path, name="Mon9P"):
         m = _verdict.match(line.strip())
         if m:
             out.append((int(m.group(1)), m.group(2), m.group(3), m.group(4)))
+    kinds = {}
+    for (_, pr, kd, _) in out:
+        kinds["%s:%s" % (pr, kd)] = kinds.get("%s:%s" % (pr, kd), 0) + 1
+    if kinds:
+        ctx.log("monitor verdicts (all properties) in %s: %s" % (name, kinds))
     consumed = re.search(r'<<"CONSUMED", (\d+)>>', r.out)
     if not consumed or int(consumed.group(1)) != nlines:
         ctx.inconclusive.append("Mon9P did not consume the whole external trace (%s of %d lines): %s" % (
